@@ -336,10 +336,16 @@ func genEdit(r *hlib.Rand) manifest.Edit {
 			e.ValueLog = &manifest.ValueLogMeta{Bucket: g32(r), FileID: g32(r), Offset: g64(r), Valid: r.Bool()}
 		}
 	case 6:
+		if r.Chance(8) { // payload-less edit: must read back with a nil pointer
+			break
+		}
 		e.Raft = &manifest.RaftLogPointer{GroupID: g64(r), Segment: g32(r), Offset: g64(r), AppliedIndex: g64(r), AppliedTerm: g64(r),
 			Committed: g64(r), SnapshotIndex: g64(r), SnapshotTerm: g64(r), TruncatedIndex: g64(r), TruncatedTerm: g64(r),
 			SegmentIndex: g64(r), TruncatedOffset: g64(r)}
 	case 7:
+		if r.Chance(6) {
+			break
+		}
 		re := &manifest.RegionEdit{}
 		re.Meta.ID = g64(r)
 		if r.Chance(20) {
